@@ -1,7 +1,7 @@
 """C01 - generated parsers implement PEG semantics for the core expressions."""
-from contracts import core, segments
+from contracts import core, segments, rt_run, rt_final
 from pyvc.report import Report
-from .common import run_fragments
+from .common import run_fragments, run_rt
 from . import wiring
 
 
@@ -17,6 +17,11 @@ def run(tier, seed):
     segments.SkipSegments().run(rep, tier)
     segments.seq_closure(rep, tier)
     wiring.rule_wrapper_obligations(rep, tier)
+    # the literals of the statement as the real front end builds them (escaping of case-insensitive literals, flags, byte values)
+    wiring.frontend_literal_obligations(rep, tier)
+    # "parsing returns exactly the value and consumes exactly the prefix": the way from the start rule's outcome to what parse() returns or
+    # raises (driver and post-pass; their contracts are those of C07 / C08 / C10, discharged here too)
+    run_rt(rep, rt_run.RUN + rt_final.FINAL, tier)
     wiring.a_subst_obligations(rep, tier)
     wiring.a_uniform_obligations(rep, tier)
     rep.functions.update(['sourcer.expressions.utils.if_succeeds', 'sourcer.expressions.utils.if_fails',
